@@ -1,7 +1,153 @@
-(* C12 - quarter-turn rotations: theorem statements only (proofs in proofs/C12_*.v). *)
-From DF Require Import Prelude FieldK NDArray Region Mesh Rotate90 C12_rot.
+(* C12 - quarter-turn rotations move values, vectors, validity and geometry together.
+   Statements only; proofs in proofs/C12_rot.v, C12_cov.v, C12_field.v, C12_inplace.v. *)
+From DF Require Import Prelude Constants_gen FieldK NDArray Region Mesh Rotate90 C12_rot C12_cov C12_field C12_inplace.
 Open Scope Q_scope.
 
-Theorem C12_turn_mod4 : forall k : Z, zturn (k mod 4) = zturn k.
-Proof. exact zturn_mod4. Qed.
-Print Assumptions C12_turn_mod4.
+(* --- covariance, geometry: for every cell i of a well-formed mesh, the centre of cell
+   rot_index i of the rotated mesh is R + Q (centre i - R), coordinate by coordinate (any
+   dimension, any axis pair, any integer k, any reference point, both forms).  Pins numpy's
+   rot90 orientation (rot_index, see C12_covariance_cells) against the corner rotation. *)
+Theorem C12_covariance_geometry :
+  forall ip m a b k ref m' R i1 i2 (sh : list nat) (i : idx) j,
+  wf_mesh m -> n m = map Z.of_nat sh ->
+  mesh_rotate90 ip m a b k ref = OK m' ->
+  rot_reference (reg m) ref = OK R -> dim2index (reg m) a = OK i1 -> dim2index (reg m) b = OK i2 ->
+  length i = length sh -> (forall j, (j < length sh)%nat -> (nth j i 0 < nth j sh 0)%nat) ->
+  (j < length sh)%nat ->
+  centre_coord m' (map Z.of_nat (rot_index sh i1 i2 k i)) j ==
+  nth j (rot_pt (fst (qturn k)) (snd (qturn k)) i1 i2 R (centre m (map Z.of_nat i))) 0.
+Proof. exact centre_covariant. Qed.
+Print Assumptions C12_covariance_geometry.
+
+(* --- covariance, cells: numpy.rot90 (flip/transpose composition) puts the entry of source
+   index i at target index rot_index i; the target index is in range of the rotated shape *)
+Theorem C12_covariance_cells :
+  forall (V : Type) (sh : list nat) (a b : nat) (k : Z) (f : idx -> V) (i : idx),
+  a <> b -> (a < length i)%nat -> (b < length i)%nat -> length sh = length i ->
+  (nth a i 0 < nth a sh 0)%nat -> (nth b i 0 < nth b sh 0)%nat ->
+  rot90 sh a b k f (rot_index sh a b k i) = f i.
+Proof. exact @rot90_at. Qed.
+Print Assumptions C12_covariance_cells.
+
+Theorem C12_target_in_range :
+  forall sh a b k i j,
+  a <> b -> (a < length i)%nat -> (b < length i)%nat -> length sh = length i ->
+  (forall j, (j < length i)%nat -> (nth j i 0 < nth j sh 0)%nat) -> (j < length i)%nat ->
+  (nth j (rot_index sh a b k i) 0 < nth j (rot90_shape sh a b k) 0)%nat.
+Proof. exact rot_index_inrange. Qed.
+Print Assumptions C12_target_in_range.
+
+(* --- validity moves with the cells *)
+Theorem C12_covariance_validity :
+  forall K ip (f : field K) a b k ref g i1 i2 (i : idx),
+  wf_mesh (fmesh f) -> field_rotate90 K ip f a b k ref = OK g ->
+  dim2index (reg (fmesh f)) a = OK i1 -> dim2index (reg (fmesh f)) b = OK i2 ->
+  length i = length (fshape f) -> (forall j, (j < length i)%nat -> (nth j i 0 < nth j (fshape f) 0)%nat) ->
+  fvalid g (rot_index (fshape f) i1 i2 k i) = fvalid f i.
+Proof. exact validity_covariant. Qed.
+Print Assumptions C12_covariance_validity.
+
+(* --- values: what Field.rotate90 stores (for every field of values K) *)
+Theorem C12_field_structure :
+  forall K ip (f : field K) a b k ref g,
+  field_rotate90 K ip f a b k ref = OK g ->
+  exists m' i1 i2, mesh_rotate90 ip (fmesh f) a b k ref = OK m' /\
+    dim2index (reg (fmesh f)) a = OK i1 /\ dim2index (reg (fmesh f)) b = OK i2 /\
+    fmesh g = m' /\ nvdim g = nvdim f /\ vdims g = vdims f /\ vmap g = vmap f /\
+    fvalid g = rot90 (fshape f) i1 i2 k (fvalid f) /\
+    ((nvdim f <= 1)%nat -> fval g = rot90 (fshape f ++ [nvdim f]) i1 i2 k (fval f)) /\
+    ((1 < nvdim f)%nat -> exists v1 v2,
+        comp_of (vdims f) (vmap f) a = OK v1 /\ comp_of (vdims f) (vmap f) b = OK v2 /\
+        fval g = rot_comp K (fst (kturn K k)) (snd (kturn K k)) v1 v2
+                   (rot90 (fshape f ++ [nvdim f]) i1 i2 k (fval f))).
+Proof. exact field_rotate90_inv. Qed.
+Print Assumptions C12_field_structure.
+
+(* the two mapped components get the quarter turn ... *)
+Theorem C12_components_rotated_first :
+  forall (K : FOps) (c s : K) v1 v2 (f : idx -> K) base, v1 <> v2 ->
+  rot_comp K c s v1 v2 f (base ++ [v1]) = fsub (fmul c (f (base ++ [v1]))) (fmul s (f (base ++ [v2]))).
+Proof. exact rot_comp_first. Qed.
+Print Assumptions C12_components_rotated_first.
+
+Theorem C12_components_rotated_second :
+  forall (K : FOps) (c s : K) v1 v2 (f : idx -> K) base,
+  rot_comp K c s v1 v2 f (base ++ [v2]) = fadd (fmul s (f (base ++ [v1]))) (fmul c (f (base ++ [v2]))).
+Proof. exact rot_comp_second. Qed.
+Print Assumptions C12_components_rotated_second.
+
+(* ... scalars and unmapped components are unchanged *)
+Theorem C12_unmapped_components_unchanged :
+  forall (K : FOps) (c s : K) v1 v2 (f : idx -> K) base comp,
+  comp <> v1 -> comp <> v2 -> rot_comp K c s v1 v2 f (base ++ [comp]) = f (base ++ [comp]).
+Proof. exact rot_comp_other. Qed.
+Print Assumptions C12_unmapped_components_unchanged.
+
+(* --- metadata: n and units swapped iff k odd; dims, component names and mapping kept *)
+Theorem C12_metadata :
+  forall K ip (f : field K) a b k ref g i1 i2,
+  field_rotate90 K ip f a b k ref = OK g ->
+  dim2index (reg (fmesh f)) a = OK i1 -> dim2index (reg (fmesh f)) b = OK i2 ->
+  n (fmesh g) = (if Z.odd k then swap_nth 0%Z i1 i2 (n (fmesh f)) else n (fmesh f)) /\
+  units (reg (fmesh g)) = (if Z.odd k then swap_nth ""%string i1 i2 (units (reg (fmesh f))) else units (reg (fmesh f))) /\
+  dims (reg (fmesh g)) = dims (reg (fmesh f)) /\
+  nvdim g = nvdim f /\ vdims g = vdims f /\ vmap g = vmap f.
+Proof. exact rotate90_metadata. Qed.
+Print Assumptions C12_metadata.
+
+(* --- rotation by k and by k mod 4 agree, at every level, in both forms *)
+Theorem C12_mod4_region : forall ip r a b k ref,
+  region_rotate90 ip r a b (k mod 4) ref = region_rotate90 ip r a b k ref.
+Proof. exact region_rotate90_mod4. Qed.
+Print Assumptions C12_mod4_region.
+
+Theorem C12_mod4_mesh : forall ip m a b k ref,
+  mesh_rotate90 ip m a b (k mod 4) ref = mesh_rotate90 ip m a b k ref.
+Proof. exact mesh_rotate90_mod4. Qed.
+Print Assumptions C12_mod4_mesh.
+
+Theorem C12_mod4_field : forall K ip (f : field K) a b k ref,
+  field_rotate90 K ip f a b (k mod 4) ref = field_rotate90 K ip f a b k ref.
+Proof. exact field_rotate90_mod4. Qed.
+Print Assumptions C12_mod4_field.
+
+(* --- the three levels rotate consistently: the field's mesh is the rotated mesh, whose region
+   is the rotated region (same axes, k, reference, form) *)
+Theorem C12_consistent_mesh_region : forall ip m a b k ref m',
+  mesh_rotate90 ip m a b k ref = OK m' ->
+  exists r' i1 i2, region_rotate90 ip (reg m) a b k ref = OK r' /\
+    dim2index (reg m) a = OK i1 /\ dim2index (reg m) b = OK i2 /\
+    reg m' = r' /\ n m' = rot_n k i1 i2 (n m) /\ bc m' = bc m.
+Proof. exact mesh_rotate90_inv. Qed.
+Print Assumptions C12_consistent_mesh_region.
+
+(* --- a vector field without the component-to-axis mapping for a or b is refused *)
+Theorem C12_refuse_unmapped : forall K ip (f : field K) a b k ref,
+  (1 < nvdim f)%nat -> rlookup a (vmap f) = None \/ rlookup b (vmap f) = None ->
+  is_ok (field_rotate90 K ip f a b k ref) = false.
+Proof. exact field_refuse_unmapped. Qed.
+Print Assumptions C12_refuse_unmapped.
+
+Theorem C12_unmapped_means_no_entry : forall dim vm,
+  rlookup dim vm = None <-> forall kv, In kv vm -> snd kv <> dim.
+Proof. exact rlookup_none. Qed.
+Print Assumptions C12_unmapped_means_no_entry.
+
+(* --- the hypotheses of the covariance theorems are satisfiable (a 4 x 2 mesh with units m, s;
+   k = -1 about (1,2) copying, k = 7 about the centre in place; cell (3,1)) *)
+Example C12_covariance_nonvacuous :
+  wf_mesh m0 /\ n m0 = map Z.of_nat [4; 2]%nat /\
+  is_ok (mesh_rotate90 false m0 "x" "y" (-1) (Some [1; 2])) = true /\
+  is_ok (mesh_rotate90 true m0 "y" "x" 7 None) = true /\
+  rot_reference (reg m0) (Some [1; 2]) = OK [1; 2] /\
+  dim2index (reg m0) "x" = OK 0%nat /\ dim2index (reg m0) "y" = OK 1%nat /\
+  (forall j, (j < 2)%nat -> (nth j [3; 1]%nat 0 < nth j [4; 2]%nat 0)%nat).
+Proof. exact m0_instance. Qed.
+Print Assumptions C12_covariance_nonvacuous.
+
+(* --- the in-place form of Region.rotate90 produces exactly what the copying form returns
+   (corners after min/max, swapped units, same rejections), for every well-formed region *)
+Theorem C12_inplace_eq_copy_region : forall r a b k ref, wf_region r ->
+  region_rotate90 true r a b k ref = region_rotate90 false r a b k ref.
+Proof. exact region_inplace_eq_copy. Qed.
+Print Assumptions C12_inplace_eq_copy_region.
